@@ -354,6 +354,14 @@ class GenericSpatialTransform(SequentialTransform):
                 rotation = euler_rotation_matrix(angles, order=rotmodel).flip((1, 2))
                 angles = euler_rotation_angles(rotation, order=rotmodel)
             data["rotation"] = angles
+        if "shearing" in self._transforms:
+            angles = pred["shearing"]
+            assert isinstance(angles, Tensor)
+            if flip_grid_coords:
+                raise NotImplementedError(
+                    f"{type(self).__name__} 'flip_grid_coords' not supported for shearing"
+                )
+            data["shearing"] = angles
         if "scaling" in self._transforms:
             if "scaling" in pred:
                 scales = pred["scaling"]
